@@ -3,7 +3,7 @@
    not modelled; the property is decided on the implementation's own inputs, outputs and
    exposed scale by the checkers of Quant/AutoScale.v, whose soundness is stated here. *)
 From Coq Require Import ZArith List Bool.
-From QV Require Import Base.ZQ Base.FL Quant.Po2 Quant.BinTern Quant.AutoScale.
+From QV Require Import Base.ZQ Base.FL Quant.Po2 Quant.BinTern Quant.AutoScale Quant.Shape.
 Open Scope Z_scope. Import ListNotations.
 
 (* a passing element is the float32 straight-through sum of (exposed scale) * (integer code), |code| <= 2^(bits-1)-1 *)
@@ -42,3 +42,22 @@ Example C05_nonvacuous :
      exposed scale 1.6, outputs 0.4, -1.4, 0.8 = 1.6 * {2, -7, 4} / 8 *)
   chk_qba_group 1 4 0 None None [1050253722; 3216192307; 1061494456] [1053609165; 3216192307; 1061997773] 1070386381 = [0; 0; 0].
 Proof. vm_compute. reflexivity. Qed.
+
+(* ---- the shape helpers behind elements_per_scale (Quant/Shape.v): the scale is computed on the unrolled tensor and comes back in
+   the documented shape ---- *)
+Theorem C05_roll_back_of_unrolled_shape_is_identity : forall s f a, (a < length s)%nat -> f <> 0 -> (nth a s 0 / f) * f = nth a s 0 ->
+  roll_one (unroll_one s f a) a = s.
+Proof. exact roll_unroll_one. Qed.
+Print Assumptions C05_roll_back_of_unrolled_shape_is_identity.
+Theorem C05_roll_back_needs_divisibility : exists s f a, (a < length s)%nat /\ f <> 0 /\ roll_one (unroll_one s f a) a <> s.
+Proof. exact roll_unroll_one_refuted. Qed.
+Theorem C05_unrolling_keeps_the_number_of_elements : forall s f a, (a < length s)%nat -> (nth a s 0 / f) * f = nth a s 0 ->
+  prod (unroll_one s f a) = prod s.
+Proof. exact unroll_one_prod. Qed.
+Print Assumptions C05_unrolling_keeps_the_number_of_elements.
+Theorem C05_unrolled_axes : forall s f a, (a < length s)%nat ->
+  nth a (unroll_one s f a) 0 = nth a s 0 / f /\ nth (S a) (unroll_one s f a) 0 = f /\
+  (forall i, (i < a)%nat -> nth i (unroll_one s f a) 0 = nth i s 0) /\
+  (forall i, (a < i)%nat -> nth (S i) (unroll_one s f a) 0 = nth i s 0).
+Proof. exact unroll_one_axes. Qed.
+Print Assumptions C05_unrolled_axes.
